@@ -686,7 +686,7 @@ class VariableSet(Contract):
 
 class VariableSetFormulas(Contract):
     name = f"{VAR}.set_formulas"
-    prop = ("C14",)
+    prop = ("C14", "C01")
     top_level = True
     cases = ("update-later-formula", "update-earlier-formula", "update-same-date-formula", "update-after-all", "no-new-formula", "no-baseline")
     descr = ("an updated variable has its new formulas plus the formulas of the variable it updates that start strictly "
@@ -773,7 +773,22 @@ def install(I):
             raise I.raise_exc("IndexError")
         k = ks[index]
         return TupleVal([d.keyvals[k], d.items[k]])
+    def setdefault(ctx, o, k, v=None):
+        from pyvc.interp import hkey
+        d = o.fields["__data__"]
+        if not isinstance(k, str):
+            raise Unsupported("SortedDict with non-string keys")
+        if hkey(k) in d.items:
+            return d.items[hkey(k)]
+        setitem(ctx, o, k, v)
+        return v
+
+    def get(ctx, o, k, default=None):
+        from pyvc.interp import hkey
+        d = o.fields["__data__"]
+        return d.items.get(hkey(k), default) if isinstance(k, str) else default
     M = lambda n, f: Builtin(n, f, {"method": True})
+    cls.ns.update({"setdefault": M("setdefault", setdefault), "get": M("get", get)})
     cls.ns.update({"__new_model__": new_model, "update": M("update", upd), "__setitem__": M("__setitem__", setitem),
                    "peekitem": M("peekitem", peekitem),
                    "__len__": M("__len__", lambda ctx, o: len(o.fields["__data__"].items)),
